@@ -455,6 +455,12 @@ func genPropHistories(c *caseWriter, stream string, quick bool) {
 		// (thorough-tier false alarm of the frozen oracle, hist07#8909: kept as a directed case)
 		emitH([]histOp{{kind: "N", name: "main"}, {kind: "S", h: 0, name: "main"}, {kind: "P", h: 1, text: d}, {kind: "Y", h: 0, name: "h"}, {kind: "X", h: 0},
 			{kind: "S", h: 1, name: "st"}, {kind: "P", h: 2, text: "{{define \"st\"}}m{{end}}"}, {kind: "Y", h: 2, name: "st"}, {kind: "X", h: 1}, {kind: "P", h: 1, text: "late"}})
+		// a member created by t.New that was never parsed ("st"), Clone, then the clone is asked for it: whatever handle
+		// the clone hands out (the unchanged engine hands out none: text/template's Clone drops members without a tree)
+		// must belong to the clone - Parse through it must not reach the original, nor may it be cloned after execution
+		emitH(append(append([]histOp{}, base...), histOp{kind: "S", h: 0, name: "st"}, histOp{kind: "C", h: 0}, histOp{kind: "L", h: 2, name: "st"},
+			histOp{kind: "P", h: 3, text: "{{define \"main\"}}<i>changed</i>{{end}}{{define \"st\"}}s{{end}}"}, histOp{kind: "X", h: 0}, histOp{kind: "Y", h: 0, name: "main"},
+			histOp{kind: "X", h: 2}, histOp{kind: "X", h: 3}, histOp{kind: "P", h: 3, text: "late"}, histOp{kind: "C", h: 3}, histOp{kind: "X", h: 0}))
 		// clone, execute the clone, then the original, late parses on both
 		emitH(append(append([]histOp{}, base...), histOp{kind: "C", h: 0}, histOp{kind: "X", h: 1}, histOp{kind: "P", h: 1, text: "late"}, histOp{kind: "X", h: 0},
 			histOp{kind: "P", h: 0, text: "{{define \"h\"}}changed{{end}}"}, histOp{kind: "X", h: 1}, histOp{kind: "X", h: 0}, histOp{kind: "C", h: 0}))
